@@ -131,6 +131,7 @@ type ContractFile struct {
 	Globals   []*GhostGlobal
 	Dropped   []string
 	Opaque    []string
+	GlobalInits []*GlobalInit
 	GlobalInvs []*Clause // facts about package-level variables, assumed at the entry of every function of the package
 	Contracts []*Contract
 	Text      string // concatenated //@ text (for field name scan and hashing)
@@ -139,7 +140,7 @@ type ContractFile struct {
 
 var clauseKeywords = map[string]bool{
 	"import": true, "const": true, "spec": true, "axiom": true, "lemma": true, "induction": true, "uses": true,
-	"ghost": true, "dropped": true, "opaque": true, "globalinv": true, "func": true, "extern": true, "interface": true, "params": true,
+	"ghost": true, "dropped": true, "opaque": true, "globalinv": true, "globalinit": true, "func": true, "extern": true, "interface": true, "params": true,
 	"results": true, "requires": true, "profile": true, "ensures": true, "modifies": true,
 	"trusted": true, "loop": true, "invariant": true, "at": true, "pure": true, "noalloc": true, "wraps": true,
 	"profiles": true, "free": true, "sameas": true, "sortspec": true, "inline": true, "lemmas": true,
@@ -292,6 +293,21 @@ func readContractFile(path string, pkgPath string) (*ContractFile, error) {
 				return nil, err
 			}
 			cf.GlobalInvs = append(cf.GlobalInvs, c)
+		case "globalinit":
+			// globalinit [tags] name: <Go expression text of the initialiser>
+			txt := rc.text
+			var tags []string
+			if m := tagsRe.FindStringSubmatch(txt); m != nil {
+				for _, t := range strings.Split(m[1], ",") {
+					tags = append(tags, strings.TrimSpace(t))
+				}
+				txt = txt[len(m[0]):]
+			}
+			k := strings.Index(txt, ":")
+			if k < 0 {
+				return nil, fail(rc, "globalinit name: expression")
+			}
+			cf.GlobalInits = append(cf.GlobalInits, &GlobalInit{Name: strings.TrimSpace(txt[:k]), Expr: strings.TrimSpace(txt[k+1:]), Tags: tags})
 		case "sortspec":
 			// sortspec TypeName: key expression over element "e" (ascending, strict weak order by key)
 			k := strings.Index(rc.text, ":")
@@ -739,4 +755,11 @@ func sortedKeys(m map[string]bool) []string {
 	}
 	sort.Strings(ks)
 	return ks
+}
+
+// GlobalInit pins the initialiser of a package-level variable (see checkGlobalInit).
+type GlobalInit struct {
+	Name string
+	Expr string
+	Tags []string
 }
